@@ -32,6 +32,7 @@ func (cmpl *compiler) parseExpression(expr ast.Expression) nodeExpression {
 
 	case *ast.AssignExpression:
 		return &nodeAssignExpression{
+			idx:      expr.Idx0(),
 			operator: expr.Operator,
 			left:     cmpl.parseExpression(expr.Left),
 			right:    cmpl.parseExpression(expr.Right),
@@ -413,6 +414,7 @@ type (
 		left     nodeExpression
 		right    nodeExpression
 		operator token.Token
+		idx      file.Idx
 	}
 
 	nodeBinaryExpression struct {
